@@ -90,7 +90,10 @@ static void chaos_plan(Rng &rng, Plan &p, const std::string &prop) {
             case 3: rq += "\r\n"; rs = "HTTP/1.1 200 "; rs.append(over, 'r'); rs += "\r\nContent-Length: 0\r\n\r\n"; break;
             case 4: rq += "\r\n"; rs += "X-Long: "; rs.append(over, 'v'); rs += "\r\n\r\n"; break;
             case 5: for (int i = 0; i < 90; i++) { rq += "X-Rep: v\r\n"; rs += "X-Rep: v\r\n"; } rq += "\r\n"; rs += "\r\n"; break;
-            case 6: { Bytes line = " "; line.append((size_t) std::min<long>(hard - 10, 900), 'c'); line += "\r\n"; rq += "X-Fold: v\r\n"; rs += "X-Fold: v\r\n"; size_t nl = 102400 / (line.size() - 3) + 20; for (size_t i = 0; i < nl; i++) { rq += line; rs += line; } rq += "\r\n"; rs += "\r\n"; break; }
+            case 6: { Bytes line = " "; line.append((size_t) std::min<long>(hard - 10, 900), 'c'); line += "\r\n"; rq += "X-Fold: v\r\n"; rs += "X-Fold: v\r\n"; size_t nl = 102400 / (line.size() - 3) + 20; if (rng.coin()) nl = (size_t) hard / (line.size() - 3) + 2; for (size_t i = 0; i < nl; i++) { rq += line; rs += line; }
+                      // then one more continuation that has to be buffered (cut inside, below) while the pending header is already past the limit
+                      if (rng.coin()) { Bytes last = " "; last.append(over, 'z'); last += "\r\n"; rq += last; rs += last; p.cfg.set("c10_long_tail", (long) last.size()); }
+                      rq += "\r\n"; rs += "\r\n"; break; }
             default: { int n = (int) p.cfg.get("max_tx", 8) + 6; rq.clear(); rs.clear(); for (int i = 0; i < n; i++) { rq += "GET / HTTP/1.1\r\nHost: a\r\n\r\n"; rs += "HTTP/1.1 200 OK\r\nContent-Length: 0\r\n\r\n"; } if (!p.cfg.has("max_tx")) p.cfg.set("max_tx", 4); break; }
         }
         cp.stream[0] = rq; cp.stream[1] = rs;
@@ -100,7 +103,11 @@ static void chaos_plan(Rng &rng, Plan &p, const std::string &prop) {
         if (kind == 6 && rng.chance(2, 3)) {
             // the folded-header cap is only reachable when no line has to be buffered (buffering is bounded by the hard limit):
             // chunks end on line boundaries
-            for (int d = 0; d < 2; d++) { std::vector<size_t> &c = d ? c1 : c0; c.clear(); const Bytes &st = cp.stream[d]; size_t every = (size_t) (rng.coin() ? rng.range(1, 30) : rng.range(100, 400)), n = 0; for (size_t i = 0; i + 1 < st.size(); i++) if (st[i] == '\n' && ++n % every == 0) c.push_back(i + 1); }
+            for (int d = 0; d < 2; d++) {
+                std::vector<size_t> &c = d ? c1 : c0; c.clear(); const Bytes &st = cp.stream[d]; size_t every = (size_t) (rng.coin() ? rng.range(1, 30) : rng.range(100, 400)), n = 0; for (size_t i = 0; i + 1 < st.size(); i++) if (st[i] == '\n' && ++n % every == 0) c.push_back(i + 1);
+                long tail = p.cfg.get("c10_long_tail", 0);
+                if (tail > 0 && st.size() > (size_t) tail + 2) { size_t b = st.size() - 2 - (size_t) tail; c.push_back(b); size_t step = (size_t) rng.range(20, 400); for (size_t q = b + step; q + 2 < st.size(); q += step) c.push_back(q); std::sort(c.begin(), c.end()); c.erase(std::unique(c.begin(), c.end()), c.end()); }
+            }
         }
         interleave_ops(rng, cp, 0, c0, c1, 100, false, false, per_conn[0]);
         p.scenario = "chaos+limits";
